@@ -354,6 +354,8 @@ def run(ctx):
         cases += extra
         cmeta += [None] * len(extra)
     res = H.run_many(CC.crash_case, cases, jobs=14, timeout=900)
+    for c in cases[:3]:
+        ctx.sample({k: v for k, v in c.items()})
     reqs, refs = [], []
     nbad = 0
     for case, meta, (tag, r) in zip(cases, cmeta, res):
